@@ -1,6 +1,7 @@
 package main
 
 import (
+	"os"
 	"fmt"
 	"math/rand"
 	"strings"
@@ -57,13 +58,61 @@ func checkC08(tier string) int {
 		crng := rand.New(rand.NewSource(hseed * 17))
 		cfg := drive.Cfg{Tag: "c08", Seed: hseed, Blocks: blocks, Params: params, Scripts: allScripts, Scout: true, Jumps: true, Absents: true, Honest: true}
 		cfg.Specs = []world.NodeSpec{{Name: "lead", Validator: w0.Vals[1], LogLevel: 1}, {Name: "crasher", Validator: w0.Vals[1], LogLevel: 1}}
+		if i%2 == 1 {
+			// as on a real node: every submitted transaction passes both nodes' mempool check before the block
+			cfg.Gossip = true
+			r.Count("histories_with_mempool_checks_on_both_nodes", 1)
+		}
 		var point string
+		var lastDup []byte // the latest refused resubmission of a lock / redeem whose tracker is finished
 		ptIdx := 0
 		cfg.PerReplica = func(run *hist.Runner, h int64, idx int, base proto.Recipe, sofar *hist.Block) *proto.Recipe {
 			if idx != 1 {
+				if idx == 0 && cfg.Gossip && h >= 3 && sofar != nil {
+					// (see below: the node that is not killed meets the refused lock / redeem once more, as the last
+					// thing before its block end)
+					for _, rj := range sofar.Rejected {
+						if (rj.Kind == "ETH_LOCK" || rj.Kind == "ETH_REDEEM" || rj.Kind == "ERC20_LOCK" || rj.Kind == "ERC20_REDEEM") && strings.Contains(rj.Note, "after the tracker finished") {
+							lastDup = rj.Bytes
+						}
+					}
+					if lastDup != nil && h%2 == 1 {
+						alt := base
+						alt.Inject = map[string][][]byte{}
+						for k, v := range base.Inject {
+							alt.Inject[k] = v
+						}
+						alt.Inject["before:EndBlock"] = append(append([][]byte{}, base.Inject["before:EndBlock"]...), lastDup)
+						return &alt
+					}
+				}
 				return nil
 			}
 			point = ""
+			if cfg.Gossip && h >= 3 && sofar != nil {
+				// in every other block the node that keeps running meets, as the last thing before its block end, the
+				// mempool check of a lock / redeem that is refused because its tracker is finished; the other node is
+				// killed right after BeginBlock and restarted (whatever that check leaves behind in the process is
+				// not there on the restarted one)
+				for _, rj := range append([]hist.TxSpec{{Kind: "ETH_LOCK", Note: "(the refused resubmission of an earlier block, met again)"}}, sofar.Rejected...)[:1] {
+					if lastDup != nil && h%2 == 1 {
+						point = "after:BeginBlock"
+						r.Count("kills_right_after_a_refused_lock_or_redeem_was_checked", 1)
+						if os.Getenv("DEBUG_C08") != "" { // triage aid
+							n := 0
+							for k := range sofar.Prev {
+								if strings.HasPrefix(k, "etht") {
+									n++
+								}
+							}
+							fmt.Printf("DEBUG h=%d refused %s %q (%s) ongoing-tracker-keys=%d\n", h, rj.Kind, rj.Note, cut(rj.Meta["check_log"], 80), n)
+						}
+						alt := base
+						alt.Crash = point
+						return &alt
+					}
+				}
+			}
 			if h < 3 || (h%int64(every) != 0 && crng.Intn(9) != 0) {
 				return nil
 			}
@@ -217,6 +266,15 @@ func checkC08(tier string) int {
 				// was restarted earlier: the two did not produce the same validator updates
 				r.Violate(verdict.Violation{Signature: "C08/continued/tendermint-refused-on-one-node-only/" + classifyApplyErr(ae.Msg), What: fmt.Sprintf("history seed %d block %d: the uninterrupted node's block results were refused by Tendermint (%s), those of the node restarted earlier were accepted", hseed, ae.Block.H, ae.Msg), Witness: map[string]interface{}{"seed": hseed, "height": ae.Block.H, "recipes": res.R.Recipes()}})
 				return
+			}
+			if ae, ok := res.Err.(*hist.ApplyError); ok && ae.Block != nil && res.R != nil && len(res.R.Reps) > 1 && res.R.Reps[1].Box.Dead && point != "" {
+				// the node that never stopped could not apply the block in which the other one was killed: if the
+				// restarted one replays that very block without trouble, the two computed different results
+				crasher := res.R.Reps[1]
+				if err := crasher.Box.Restart(); err == nil && crasher.Box.Boot != nil && crasher.Box.Boot.Height == ae.Block.H {
+					r.Violate(verdict.Violation{Signature: "C08/replayed/tendermint-refused-on-the-uninterrupted-node-only/" + classifyApplyErr(ae.Msg), What: fmt.Sprintf("history seed %d block %d: the uninterrupted node's block results were refused by Tendermint (%s); the node killed at %s and restarted replayed the same block and reached height %d", hseed, ae.Block.H, ae.Msg, point, crasher.Box.Boot.Height), Witness: map[string]interface{}{"seed": hseed, "height": ae.Block.H, "point": point, "recipes": res.R.Recipes()}})
+					return
+				}
 			}
 			reportRunErr(r, "C08", hseed, res)
 			return
